@@ -273,6 +273,17 @@ pub fn huff_cases(cfg: &Cfg, aliases: &[&'static str], arity: usize, opts: &BatO
         out.push(tree_case(alias, "u8", r, w));
     }
     if with_over32 && cfg.scale == Scale::Full {
+        // the deepest supported code: exactly 32 bits
+        let spec = deepest_supported_spec(arity, cfg.seed ^ 0x0320);
+        let alias = aliases[aliases.len() / 2];
+        let mut o = opts.clone();
+        o.budget = o.budget.min(6000);
+        o.iter = false;
+        let w = spec.n as u64 * 4;
+        let r = TreeRun { spec, path: 0, ties: vec![None], opts: o };
+        out.push(tree_case(alias, "u16", r, w));
+    }
+    if with_over32 && cfg.scale == Scale::Full {
         // the input whose longest code exceeds 32 bits (known finding; see known_findings.json)
         let spec = over32_spec(arity, cfg.seed ^ 0x0532);
         let alias = aliases[0];
